@@ -107,3 +107,28 @@ def _setup(b, case):
 c.setup(_setup)
 c.crosscheck = False        # the setup replaces Parser and Machine inside the module: a native run would build the real ones
 c.ensures('each-job-keeps-the-program-of-its-own-text', 'result[0] is not result[1] and len(result[0]) == 1 and result[0][0] == t1 and len(result[1]) == 1 and result[1][0] == t2')
+
+
+# ---- the application's wiring (light_module.configure, two calls away from every Machine): clocks stay per machine, the
+#      standard-output sink is one object
+c = contract('bardolph/controller/light_module.py', 'wiring', serves=['C17', 'C09', 'C10', 'C19'], name='lemma:light_module.configure(); provide(Clock) twice; provide(Output) twice', src='''
+def wiring():
+    from bardolph.lib import injection as _inj, i_lib as _il
+    configure()
+    return (_inj.provide(_il.Clock), _inj.provide(_il.Clock), _inj.provide(_il.Output), _inj.provide(_il.Output))
+''')
+def _setup(b, case):
+    from pyvc.values import Opaque
+    lib.injection_reset(b)
+    settings = Opaque('settings', {'get_value': lambda I_, o, a, k: (True if a[0] == 'use_fakes' else (a[1] if len(a) > 1 else None))})
+    lib.provide(b, b.cls('bardolph.lib.i_lib', 'Settings'), settings)
+    for modname in ('bardolph.lib.log_config', 'bardolph.fakes.fake_light_api', 'bardolph.controller.light_set'):
+        try:
+            m = b.module(modname)
+        except Exception:
+            continue
+        m.ns['configure'] = Builtin('configure', lambda I_, a, k: None)     # logging, discovery: not the subject here
+    return {}
+c.setup(_setup)
+c.crosscheck = False
+c.ensures('own-clock-per-request-one-output-sink', "result[0] is not result[1] and typename(result[0]) == 'Clock' and result[2] is result[3]")
